@@ -146,6 +146,19 @@ def group_probe_stratum(ctx, d, n):
             g = dict(group)
             g["times"] = t
             d.run_pattern([x, g, y], "base", True)
+        # the same repeated element used at two places of one rule (one YAML node, referred to by alias the second time)
+        t = rng.choice([r, {"min": r, "max": r + 1}, {"min": max(1, r - 1), "max": r}])
+        g = dict(group)
+        g["times"] = t
+        dbl = insts[:-1] + [L.SInst(0, s_.mnem, [], None, None, 1) for s_ in insts[:-1]] + [L.SInst(0, x, [], None, None, 1)]
+        RG._readdress(dbl)
+        prep2 = dsl.Prepared(d.ws, dbl, rng)
+        ctx.ran()
+        if prep2.verify(d.ws):
+            d.prep, d.style = prep2, f"group-probe-shared/{kind[1:]}"
+            saved, d.alias_twin = d.alias_twin, 1.0
+            d.run_pattern([x, g, y, x, g, y], "base", True)
+            d.alias_twin = saved
         ctx.event("group_probes")
 
 
